@@ -58,6 +58,14 @@
 (* duration of the last refresh).  robbedAt records when that happened;    *)
 (* the holder must stop within the time it is stalled (ExclusionMargin in  *)
 (* LockObs.tla).                                                           *)
+(* The premise of C12 is read jointly (clock difference + total stall of a *)
+(* holder <= the margin of 3 units): ExclusionMargin holds for MaxSkew = 3  *)
+(* with Budget = 1 (Lock_skew2.cfg) and, with the edge clock (Edge), with   *)
+(* Budget = 0 (Lock_skew2e.cfg, Lock_q_skew2_goals.cfg); with Edge and      *)
+(* Budget = 1 it is violated (Lock_skew2e_budget1.cfg, the "premise twin"): *)
+(* a regular refresh, which does not check that the old lock file still     *)
+(* exists, re-creates the lock of a robbed holder after a newcomer acquired *)
+(* (see /verif/findings/C12-boundary-skew-plus-stall/).                     *)
 (*                                                                         *)
 (* hist records the schedule (who moved) that the harness replays into the *)
 (* real lockers; it is hidden by the VIEW in exhaustive runs.              *)
